@@ -11,6 +11,7 @@ import (
 	"net/http"
 	"net/url"
 	"regexp"
+	"strconv"
 	"strings"
 
 	"github.com/oauth2-proxy/oauth2-proxy/v7/verifx/world"
@@ -94,7 +95,9 @@ var c15RuleSets = []c15RuleSet{
 var c15Methods = []string{"GET", "POST", "OPTIONS", "HEAD", "DELETE"}
 var c15Paths = []string{"/", "/api", "/api/", "/api/v1", "/apix", "/x/api", "/public", "/public/a", "/private", "/private/public", "/a%2Fpublic", "/api;v=1",
 	// origin-form targets that begin with two slashes are paths (RFC 7230 5.3.1), not authority + path
-	"//x/api", "//x/public/a", "//api", "//private/public", "/public//a"}
+	"//x/api", "//x/public/a", "//api", "//private/public", "/public//a",
+	// unreserved characters percent-encoded: the same path under RFC 3986 6.2.2.2 (the upstream will see /api)
+	"/%61pi", "/%61%70%69/v1", "/p%75blic/a", "/priv%61te"}
 var c15Queries = []string{"", "?", "?a=1", "?x=/public", "?/api", "?next=/public/a&b=2", "?a=1#/public", "?%2Fpublic", "?x=^/api", "?/private"}
 
 type c15Case struct {
@@ -136,6 +139,25 @@ func c15ObserveForwarded(px *Proxy, up *world.Upstream, method, target string) (
 		return false, 0, resp.Panic
 	}
 	return resp.Status == http.StatusAccepted, resp.Status, nil
+}
+
+// c15NormalizeUnreserved decodes the percent-encoded octets that stand for unreserved characters.
+func c15NormalizeUnreserved(p string) string {
+	var b strings.Builder
+	for i := 0; i < len(p); i++ {
+		if p[i] == '%' && i+2 < len(p)+0 && i+2 <= len(p)-1+0 {
+			if v, err := strconv.ParseUint(p[i+1:i+3], 16, 8); err == nil {
+				ch := byte(v)
+				if ch >= 'a' && ch <= 'z' || ch >= 'A' && ch <= 'Z' || ch >= '0' && ch <= '9' || ch == '-' || ch == '.' || ch == '_' || ch == '~' {
+					b.WriteByte(ch)
+					i += 2
+					continue
+				}
+			}
+		}
+		b.WriteByte(p[i])
+	}
+	return b.String()
 }
 
 // c15OtherHeaders: header sets that must not influence the decision.
@@ -209,7 +231,9 @@ func c15Routes(c *Ctx, up *world.Upstream) {
 							continue
 						}
 						e1 := c15Exempt(rules, preflight, method, u.Path)
-						e2 := c15Exempt(rules, preflight, method, u.EscapedPath())
+						// the other admissible reading is the path as sent — but percent-encoded unreserved characters
+						// are not a different path (RFC 3986 6.2.2.2): only reserved ones (%2F) leave two readings
+						e2 := c15Exempt(rules, preflight, method, c15NormalizeUnreserved(u.EscapedPath()))
 						// other headers have no influence: a header naming another method, and the session cookie
 						// of a user whom the proxy's e-mail rule does not admit, change nothing about the decision
 						if base, st0, p0 := observe(px, up, method, path); p0 == nil && !(via == "direct" && (st0 == http.StatusMovedPermanently || st0 == http.StatusPermanentRedirect)) {
@@ -673,7 +697,7 @@ func init() {
 			}
 			if u, err := url.ParseRequestURI(pathOf(cs.Target)); err == nil {
 				rules := c15ParseRules(cs.Rules)
-				e1, e2 := c15Exempt(rules, cs.Preflight, cs.Method, u.Path), c15Exempt(rules, cs.Preflight, cs.Method, u.EscapedPath())
+				e1, e2 := c15Exempt(rules, cs.Preflight, cs.Method, u.Path), c15Exempt(rules, cs.Preflight, cs.Method, c15NormalizeUnreserved(u.EscapedPath()))
 				if e1 == e2 && got != e1 && pan == nil {
 					c.Violate("C15/route-decision", fmt.Sprintf("expected exempt=%v, observed exempt=%v (status %d)", e1, got, status), 1, cs)
 				}
